@@ -12,6 +12,7 @@ import (
 	"regexp"
 	"strings"
 
+	"golang.org/x/tools/go/packages"
 	"golang.org/x/tools/go/ssa"
 )
 
@@ -20,6 +21,13 @@ import (
 func normalizedBody(c *Ctx, fn *types.Func, subst map[string]string, dropStmt func(ast.Stmt) bool) (string, bool) {
 	decl, p := c.Decl(fn)
 	if decl == nil || decl.Body == nil {
+		return "", false
+	}
+	return normalizedNode(c, p, decl.Body, subst)
+}
+
+func normalizedNode(c *Ctx, p *packages.Package, root ast.Node, subst map[string]string) (string, bool) {
+	if root == nil || p == nil {
 		return "", false
 	}
 	locals := map[types.Object]string{}
@@ -62,7 +70,7 @@ func normalizedBody(c *Ctx, fn *types.Func, subst map[string]string, dropStmt fu
 		text     string
 	}
 	var repls []repl
-	ast.Inspect(decl.Body, func(n ast.Node) bool {
+	ast.Inspect(root, func(n ast.Node) bool {
 		switch x := n.(type) {
 		case *ast.Ident:
 			obj := p.TypesInfo.Uses[x]
@@ -96,16 +104,16 @@ func normalizedBody(c *Ctx, fn *types.Func, subst map[string]string, dropStmt fu
 		}
 		return true
 	})
-	if err := cfg.Fprint(&buf, fset, decl.Body); err != nil {
+	if err := cfg.Fprint(&buf, fset, root); err != nil {
 		return "", false
 	}
 	// apply replacements on the original source text instead (positions refer to it)
-	file := fset.File(decl.Body.Pos())
+	file := fset.File(root.Pos())
 	src, err := readFileCached(file.Name())
 	if err != nil {
 		return "", false
 	}
-	start, end := file.Offset(decl.Body.Pos()), file.Offset(decl.Body.End())
+	start, end := file.Offset(root.Pos()), file.Offset(root.End())
 	var out strings.Builder
 	cur := start
 	// replacements are in source order because ast.Inspect is pre-order; skip nested
@@ -217,4 +225,62 @@ func ruleWhoConstructs(c *Ctx, r *Report) {
 	} else {
 		r.Undecided("WHO", "anchor:"+allowed, "", "AppendProtectRange no longer constructs SubSamplePattern values (anchor lost)")
 	}
+}
+
+// ruleSCloneSwitch — two sibling functions contain a `switch <tag>` statement that must be the same in both
+// (normalised): the per-box-type handling of the two file decoders.
+func ruleSCloneSwitch(c *Ctx, r *Report, pkg, a, b, tag string) {
+	key := pkg + "." + a + "~" + b + ":switch " + tag
+	pick := func(name string) (ast.Node, *packages.Package) {
+		fn := c.LookupFunc(pkg, name)
+		if fn == nil {
+			return nil, nil
+		}
+		decl, p := c.Decl(fn)
+		if decl == nil {
+			return nil, nil
+		}
+		var found ast.Node
+		ast.Inspect(decl.Body, func(n ast.Node) bool {
+			if sw, ok := n.(*ast.SwitchStmt); ok && found == nil {
+				if id, ok := sw.Tag.(*ast.Ident); ok && id.Name == tag {
+					found = sw
+				}
+			}
+			return true
+		})
+		return found, p
+	}
+	na, pa := pick(a)
+	nb, pb := pick(b)
+	if na == nil || nb == nil {
+		r.Undecided("S-CLONE", key, "", "the switch statement was not found in both functions")
+		return
+	}
+	sa, ok1 := normalizedNode(c, pa, na, nil)
+	sb, ok2 := normalizedNode(c, pb, nb, nil)
+	if !ok1 || !ok2 {
+		r.Undecided("S-CLONE", key, c.Pos(na.Pos()), "source not available")
+		return
+	}
+	if sa == sb {
+		r.OK("S-CLONE", key, c.Pos(na.Pos()), fmt.Sprintf("the per-box-type handling is identical in both file decoders (%d normalised characters)", len(sa)))
+		return
+	}
+	i := 0
+	for i < len(sa) && i < len(sb) && sa[i] == sb[i] {
+		i++
+	}
+	lo := i - 60
+	if lo < 0 {
+		lo = 0
+	}
+	hiA, hiB := i+80, i+80
+	if hiA > len(sa) {
+		hiA = len(sa)
+	}
+	if hiB > len(sb) {
+		hiB = len(sb)
+	}
+	r.Bad("S-CLONE", key, c.Pos(nb.Pos()), fmt.Sprintf("the two file decoders handle a box type differently: %s has …%s… where %s has …%s…", a, sa[lo:hiA], b, sb[lo:hiB]))
 }
